@@ -40,15 +40,15 @@ type poolRec struct {
 }
 
 type vSnap struct {
-	pools   map[string]map[string]poolRec
-	module  sdk.Int
-	bal     kernel.Balances
-	accs    map[string][]byte
-	traces  map[string]vtypes.VestingAccountTrace
-	traceN  uint64
-	vstore  map[string][]byte
-	denom   string
-	now     time.Time
+	pools  map[string]map[string]poolRec
+	module sdk.Int
+	bal    kernel.Balances
+	accs   map[string][]byte
+	traces map[string]vtypes.VestingAccountTrace
+	traceN uint64
+	vstore map[string][]byte
+	denom  string
+	now    time.Time
 }
 
 func takeVSnap(c *kernel.Chain, withStore bool) *vSnap {
